@@ -5,6 +5,7 @@ open ShuttleProofs
 
 -- C08
 #print axioms C08.log_decisions
+#print axioms C08.decisions_logged
 #print axioms C08.decision_fields
 #print axioms C08.offered_nonempty
 #print axioms C08.offered_strictly_ascending
@@ -22,10 +23,12 @@ open ShuttleProofs
 #print axioms C08.flag_only_by_requestYield
 #print axioms C08.flag_monotone
 #print axioms C08.chosen_runs_next
+#print axioms C08.chosen_task_runnable
 #print axioms C08.choice_not_offered_panics
 #print axioms C08.none_stops_iter
 #print axioms C08.none_stops_without_failure
 #print axioms C08.stopped_only_by_none
+#print axioms C08.no_scheduling_error
 #print axioms C08.record_exact
 #print axioms C08.record_exact_of_not_schedPanic
 #print axioms C08.record_exact_at
@@ -41,6 +44,7 @@ open ShuttleProofs
 #print axioms C13.steps_total_bound_partial
 #print axioms C13.steps_overshoot_witness
 #print axioms C13.terminates_under_bound
+#print axioms C13.task_steps_le_bound
 #print axioms C13.terminates_under_bound_iterations
 -- C03
 #print axioms C03.deadlockAt_iff
